@@ -7,6 +7,7 @@ import (
 	"time"
 
 	"verif/harness/internal/dbx"
+	"verif/harness/internal/gate"
 	"verif/harness/internal/kvmap"
 	"verif/harness/internal/rec"
 )
@@ -15,6 +16,7 @@ import (
 // TLC behaviours are translated to, and what a replay file contains.
 type Script struct {
 	ID       string  `json:"id"`
+	Mode     string  `json:"mode"` // free: flusher runs freely; steer: flusher stages released by "fl" steps
 	Seed     int64   `json:"seed"`
 	Cfg      CfgJSON `json:"cfg"`
 	Alphabet string  `json:"alphabet"`
@@ -43,19 +45,44 @@ type ScriptResult struct {
 	Shape     map[string]int `json:"shape,omitempty"`
 	Corrupt   int            `json:"corrupt_values"`
 	FlSteps   int            `json:"fl_steps"`
+	Abandons  int            `json:"abandons"`
+	Misuse    int            `json:"misuse"`
 	Diverged  int            `json:"diverged"`
 	ImplTrace []string       `json:"-"`
 }
 
 // genScript draws a random single-client scenario.
-func genScript(r *rand.Rand, id string, nops int) Script {
+// profile: c01 (writes, flusher steps, idle), c02 (plus close/reopen cycles), c08 (plus abandoned
+// transactions and misuse calls), "" (everything).
+func genScript(r *rand.Rand, id string, nops int, profile string) Script {
 	s := Script{ID: id, Seed: r.Int63(), Cfg: randCfg(r), NKeys: 2 + r.Intn(9)}
 	s.Alphabet = pick(r, "plain", "adversarial", "adversarial", "long", "binary")
 	vid := 0
 	reopenP := pick(r, 0.0, 0.0, 0.03, 0.1)
 	idleP := pick(r, 0.0, 0.1, 0.3)
+	abandonP, misuseP := 1.0/12, 0.0
+	switch profile {
+	case "c01":
+		reopenP, abandonP = 0, 0
+	case "c02":
+		reopenP, abandonP = pick(r, 0.05, 0.1, 0.25), 0
+	case "c08":
+		reopenP, abandonP, misuseP = pick(r, 0.0, 0.05), pick(r, 0.2, 0.4), 0.1
+	}
+	s.Mode = pick(r, "free", "steer", "steer")
+	flP := 0.0
+	if s.Mode == "steer" {
+		flP = pick(r, 0.15, 0.3, 0.5)
+		idleP = pick(r, 0.0, 0.02, 0.1)
+	}
 	for i := 0; i < nops; i++ {
 		x := r.Float64()
+		if s.Mode == "steer" {
+			// release flusher stages one at a time, reading everything after each
+			for r.Float64() < flP {
+				s.Steps = append(s.Steps, Step{Op: "fl", N: 1}, Step{Op: "read"})
+			}
+		}
 		switch {
 		case x < reopenP:
 			st := Step{Op: "reopen"}
@@ -73,9 +100,13 @@ func genScript(r *rand.Rand, id string, nops int) Script {
 				n = 1 + r.Intn(s.NKeys)
 			}
 			st := Step{Op: "txn"}
-			if r.Intn(12) == 0 {
+			if r.Float64() < abandonP {
 				st.Op = "abandon"
-				st.How = pick(r, "discard", "fail")
+				st.How = pick(r, "discard", "fail", "discard-read")
+			}
+			if r.Float64() < misuseP {
+				s.Steps = append(s.Steps, Step{Op: "misuse", How: pick(r, "readonly", "afterdiscard", "emptykey", "commit2", "closed"),
+					Puts: [][2]int{{1 + r.Intn(s.NKeys), 700000 + i}}})
 			}
 			for j := 0; j < n; j++ {
 				k := 1 + r.Intn(s.NKeys)
@@ -94,71 +125,247 @@ func genScript(r *rand.Rand, id string, nops int) Script {
 		}
 		s.Steps = append(s.Steps, Step{Op: "read"})
 	}
-	s.Steps = append(s.Steps, Step{Op: "idle"}, Step{Op: "read"}, Step{Op: "reopen"}, Step{Op: "read"})
+	s.Steps = append(s.Steps, Step{Op: "idle"}, Step{Op: "read"})
+	if profile != "c01" {
+		s.Steps = append(s.Steps, Step{Op: "reopen"}, Step{Op: "read"})
+	}
 	return s
 }
 
 var errFail = fmt.Errorf("closure failed on purpose")
 
+// runner executes one script; with ctl != nil hooks are recorded and (Mode "steer") the
+// flusher is parked at its yield points and released by "fl" steps.
+type runner struct {
+	s    Script
+	ctl  *gate.Ctl
+	dir  string
+	tr   *rec.Trace
+	km   *kvmap.Map
+	st   *dbx.Store
+	c    *dbx.Sess
+	cfg  CfgJSON
+	res  *ScriptResult
+	keep bool // keep the directory
+}
+
+// flIdle: the flusher is parked at fl.wait and nothing is queued.
+func (r *runner) flIdle() bool {
+	if r.ctl.Where() != "fl.wait" {
+		return false
+	}
+	_, q, _ := r.st.DB.VerifShape()
+	return q == 0
+}
+
+// flStep releases one flusher stage; false if the flusher is idle.
+func (r *runner) flStep() bool {
+	r.ctl.WaitParked()
+	if r.flIdle() {
+		return false
+	}
+	r.ctl.Step()
+	r.res.FlSteps++
+	return true
+}
+
+// onClient keeps a steered run live: the client is about to hand something to the parked
+// flusher (a full or unbuffered queue, the close signal), so the flusher is moved to where
+// it can take it.
+func (r *runner) onClient(point string, args []any) {
+	if !r.ctl.Steering() {
+		return
+	}
+	switch point {
+	case "cm.enq.pre":
+		n, capa := args[0].(int), args[1].(int)
+		if n < capa {
+			return
+		}
+		if capa == 0 {
+			for r.ctl.WaitParked() != "fl.wait" {
+				r.ctl.Step()
+				r.res.FlSteps++
+			}
+			r.ctl.Release() // into the select; it receives what we send next
+			return
+		}
+		for {
+			r.ctl.WaitParked()
+			at := r.ctl.Step()
+			r.res.FlSteps++
+			if at == "fl.take" {
+				return
+			}
+		}
+	case "cm.enq":
+		r.ctl.WaitParked()
+	case "cl.signal.pre":
+		// Close hands over on an unbuffered channel: finish the current cycle, then let the
+		// flusher run freely until it exits
+		for r.ctl.WaitParked() != "fl.wait" {
+			r.ctl.Step()
+			r.res.FlSteps++
+		}
+		r.ctl.SteerFlusher(false)
+	}
+}
+
+func (r *runner) open(first bool) error {
+	if r.ctl != nil {
+		r.ctl.NewDB()
+		r.ctl.Adopt(r.dir)
+		r.ctl.SteerFlusher(r.s.Mode == "steer")
+	}
+	st, err := dbx.Open(r.dir, r.cfg.Config(), r.tr, r.km, first)
+	if err != nil {
+		return err
+	}
+	r.st = st
+	r.c = st.Sess(1)
+	if r.ctl != nil && r.s.Mode == "steer" {
+		r.ctl.WaitParked()
+	}
+	return nil
+}
+
+func (r *runner) drain() {
+	if r.ctl != nil && r.s.Mode == "steer" {
+		for r.flStep() {
+		}
+		return
+	}
+	waitIdle(r.st, 5*time.Second)
+}
+
+func (r *runner) readAll() {
+	r.c.Begin(false)
+	for k := 1; k <= r.s.NKeys; k++ {
+		if r.c.Get(k) == -2 {
+			r.res.Corrupt++
+		}
+		r.res.Reads++
+	}
+	r.c.Discard()
+}
+
+func (r *runner) step(step Step) error {
+	switch step.Op {
+	case "txn", "abandon":
+		r.c.Begin(true)
+		for _, p := range step.Puts {
+			r.c.Put(p[0], p[1])
+		}
+		switch {
+		case step.Op == "txn":
+			if r.c.Commit() == "ok" {
+				r.res.Commits++
+			}
+		case step.How == "fail": // DB.Update whose closure fails: nothing may be applied
+			r.c.Discard()
+			r.c.UpdateFailing(step.Puts, errFail)
+		case step.How == "discard-read":
+			for _, p := range step.Puts {
+				r.c.Get(p[0])
+			}
+			r.c.Discard()
+		default:
+			r.c.Discard()
+		}
+		if step.Op == "abandon" {
+			r.res.Abandons++
+		}
+	case "misuse":
+		r.res.Misuse++
+		k, v := step.Puts[0][0], step.Puts[0][1]
+		switch step.How {
+		case "readonly":
+			r.c.Begin(false)
+			r.c.Put(k, v)
+			r.c.Put(k, 0)
+			r.c.Get(k)
+			r.c.Discard()
+		case "afterdiscard":
+			r.c.Begin(true)
+			r.c.Put(k, v)
+			r.c.Discard()
+			r.c.Put(k, v+1)
+			r.c.Get(k)
+			r.c.Commit()
+			r.c.Discard()
+		case "emptykey":
+			r.c.Begin(true)
+			r.c.Put(0, v)
+			r.c.Put(0, 0)
+			r.c.Commit()
+		case "commit2":
+			r.c.Begin(true)
+			r.c.Put(k, v)
+			if r.c.Commit() == "ok" {
+				r.res.Commits++
+			}
+			r.c.Commit()
+			r.c.Put(k, v+1)
+		case "closed":
+			r.drain()
+			r.st.Close()
+			r.c.ClosedCall(false)
+			r.c.ClosedCall(true)
+			if err := r.open(false); err != nil {
+				return err
+			}
+			r.res.Reopens++
+		}
+	case "read":
+		r.readAll()
+	case "idle":
+		r.drain()
+	case "fl":
+		if r.ctl != nil && r.s.Mode == "steer" {
+			for i := 0; i < step.N; i++ {
+				if !r.flStep() {
+					break
+				}
+			}
+		}
+	case "reopen":
+		r.st.Close()
+		if step.Cfg != nil {
+			r.cfg = *step.Cfg
+		}
+		if err := r.open(false); err != nil {
+			return err
+		}
+		r.res.Reopens++
+	}
+	return nil
+}
+
 // runScript executes a script against the real engine in a fresh directory and returns the
 // recorded API trace.
-func runScript(s Script) (tr *rec.Trace, res ScriptResult) {
+func runScript(s Script, ctl *gate.Ctl) (tr *rec.Trace, res ScriptResult) {
 	res.ID = s.ID
 	dir := scratch("seq")
 	defer os.RemoveAll(dir)
-	km := kvmap.New(s.Alphabet, s.NKeys)
 	tr = &rec.Trace{}
-	cfg := s.Cfg
-	st, err := dbx.Open(dir, cfg.Config(), tr, km, true)
-	if err != nil {
+	r := &runner{s: s, ctl: ctl, dir: dir, tr: tr, km: kvmap.New(s.Alphabet, s.NKeys), cfg: s.Cfg, res: &res}
+	if ctl == nil {
+		r.s.Mode = "free"
+	} else {
+		ctl.OnClient = r.onClient
+	}
+	if err := r.open(true); err != nil {
 		res.Err = err.Error()
 		return
 	}
-	c := st.Sess(1)
-	readAll := func() {
-		c.Begin(false)
-		for k := 1; k <= s.NKeys; k++ {
-			if c.Get(k) == -2 {
-				res.Corrupt++
-			}
-			res.Reads++
-		}
-		c.Discard()
-	}
 	for _, step := range s.Steps {
-		switch step.Op {
-		case "txn", "abandon":
-			c.Begin(true)
-			for _, p := range step.Puts {
-				c.Put(p[0], p[1])
-			}
-			if step.Op == "txn" {
-				if c.Commit() == "ok" {
-					res.Commits++
-				}
-			} else {
-				c.Discard()
-			}
-		case "read":
-			readAll()
-		case "idle":
-			waitIdle(st, 5*time.Second)
-		case "reopen":
-			st.Close()
-			if step.Cfg != nil {
-				cfg = *step.Cfg
-			}
-			st, err = dbx.Open(dir, cfg.Config(), tr, km, false)
-			if err != nil {
-				res.Err = err.Error()
-				return
-			}
-			c = st.Sess(1)
-			res.Reopens++
+		if err := r.step(step); err != nil {
+			res.Err = err.Error()
+			return
 		}
 	}
-	waitIdle(st, 5*time.Second)
-	st.Close()
+	r.drain()
+	r.st.Close()
 	db, _, _, lv := countFiles(dir)
 	res.DBFiles, res.Levels = db, lv
 	for l := range lv {
